@@ -9,7 +9,7 @@ from .. import tlc
 from ..common import Report, pmap
 from ..enc import iso, lat, secs_of
 
-FAMILY = r"^(clock\.(init|nsteps|reference|accepts)|tick\.|conv\.|units\.|period\.)"
+FAMILY = r"^(clock\.(init|nsteps|reference|accepts)|tick\.|conv\.|units\.|period\.|format\.)"
 
 
 # ---------------------------------------------------------------- drivers (run in workers, real code)
@@ -87,8 +87,15 @@ def render(sp):
 
 def period_trace(sc):
     import numpy as np
-    from ladim.timekeeper import normalize_period
+    from ladim.timekeeper import duration2iso, normalize_period
     ev = [dict(ev="setup", kind="periods")]
+    for secs in sc.get("durations", []):
+        for form in ("td", "td64"):
+            try:
+                txt = duration2iso(datetime.timedelta(seconds=secs) if form == "td" else np.timedelta64(secs, "s"))
+                ev.append(dict(ev="format", secs=secs, toks=list(txt)))
+            except Exception as ex:
+                ev.append(dict(ev="format", secs=secs, toks=["!", type(ex).__name__]))
     for sp in sc["spellings"]:
         arg = render(sp)
         if sp["kind"] == "other":
@@ -163,7 +170,8 @@ def spellings(tier, rng):
     for w in ("none", "float", "str"):
         sps.append(dict(kind="other", what=w))
     rng.shuffle(sps)
-    return [dict(spellings=sps[i:i + 250], cls={}) for i in range(0, len(sps), 250)]
+    durs = [0, 1, 59, 60, 61, 3599, 3600, 3661, 86399, 86400, 86401, 90061, 172800, 1000000] + [rng.randrange(0, 3 * 86400) for _ in range(60)]
+    return [dict(spellings=sps[i:i + 250], durations=durs if i == 0 else [], cls={}) for i in range(0, len(sps), 250)]
 
 
 DRIVERS = {"clock": ("harness.checks.c13", "clock_trace", "ClockTrace", FAMILY),
